@@ -611,7 +611,7 @@ def id_marker(ctx):
            '(with <= the result equals or precedes a bound), and a one-node identifier is compared at the first path node, so its '
            'position must be derived from the first node of the bound',
     'C12': 'List::append / insert_index allocate identifiers with the one-bound and two-bound forms',
-}, floor=3)
+}, floor=4)
 def id_between(ctx):
     """Identifier::between: (a) at an equal-position node the marker is appended in place only when it is strictly
     between the two sibling markers; (b) with a single bound the new position is computed from the first node of that bound."""
@@ -706,6 +706,86 @@ def id_between(ctx):
                                 '(the result is not between the bounds)' % (block_line(it, bb), 'low' if sd == 1 else 'high'))
         ctx.check(not errs, 'fork', body, 'fork position taken between the current nodes of both paths', errs[0] if errs else '',
                   line=block_line(it, forks[0][0]), props=['C14'])
+    # (d) the walk over the common prefix: at a node pair with EQUAL positions where the marker does not fit, the walk descends
+    # along the high path (copies the high node) - keeping the low path when the two markers are equal (common prefix), and
+    # dropping it when they differ (the paths have diverged); node pairs with different positions always fork.
+    def node_field(t):
+        t = versionless(t)
+        if t[0] == 'field' and t[2] in ('0', '1'):
+            sd = node_side(t[1])
+            if sd in (1, 2):
+                return sd, t[2]
+        return None
+
+    def classify_w(a, b, t):
+        va, vb = versionless(a), versionless(b)
+        fa, fb = node_field(va), node_field(vb)
+        if fa and fb and fa[1] == fb[1] and {fa[0], fb[0]} == {1, 2}:
+            return ('req' if fa[1] == '0' else 'meq', 'fwd' if fa[0] == 1 else 'rev')
+        for x, y, orient in ((va, vb, 'fwd'), (vb, va, 'rev')):
+            fx, fy = node_field(x), node_field(y)
+            if y == ('param', 3) and fx == (1, '1'):
+                return ('low', orient)
+            if x == ('param', 3) and fy == (2, '1'):
+                return ('high', orient)
+        return None
+    copies = []
+    for bb, c in sorted(it.calls.items()):
+        if call_name(c.term) == 'push' and len(c.args) == 2:
+            v = drop_lv(c.args[1].val)
+            if v[0] == 'tuple' and len(v[1]) == 2 and node_field(v[1][0]) == (2, '0') and node_field(v[1][1]) == (2, '1'):
+                copies.append(bb)
+    low_local = None
+    for bb, c in sorted(it.calls.items()):
+        if call_name(c.term) == 'next' and c.args and node_side(c.term) == 1 and c.args[0].loc is not None:
+            root = c.args[0].loc[0]
+            if root[0] == 'L':
+                low_local = root[1]
+    lp = innermost_loop(it, copies[0]) if copies else None
+    if not copies or lp is None or low_local is None:
+        ctx.shape('walk', body, 'no step copying the high node (push of (h_ratio, h_m)) inside a loop over both paths%s'
+                  % ('' if low_local is not None else ' / the low path iterator is not a local'))
+    else:
+        head, lblocks = lp
+        clears = sorted(bi for bi in lblocks for st in body.blocks[bi]['stmts']
+                        if st.get('k') == 'assign' and st['place']['local'] == low_local and not st['place']['proj'])
+        clears += sorted(bi for bi in lblocks if bi in it.calls and it.calls[bi].dest and it.calls[bi].dest.get('local') == low_local
+                         and not it.calls[bi].dest.get('proj'))
+        sib_or_copy = set(sib) | set(copies)
+
+        def reach(asm):
+            return Reach(facts, body, Evaluator(facts, classify=classify_w, bool_atom=have, assumption=dict({'n1': True, 'n2': True}, **asm)))
+        errs = []
+        ev0 = Evaluator(facts, classify=classify_w, bool_atom=have, assumption={'n1': True, 'n2': True, 'req': EQ, 'meq': EQ, 'low': GT, 'high': LT})
+        Reach(facts, body, ev0)
+        if not {'req', 'meq'} <= set(ev0.hits):
+            errs.append('the walk does not compare the positions and the markers of the two current nodes')
+        else:
+            for o in (LT, GT):     # positions differ: never copy, never use the sibling shortcut, never drop the low path
+                rc = reach({'req': o})
+                if any(b in rc.reachable for b in sib_or_copy):
+                    errs.append('a node is copied / the sibling shortcut is taken although the two current positions differ (ord=%s): '
+                                'the result leaves the interval' % o)
+                    break
+            if not errs:
+                rc = reach({'req': EQ, 'meq': EQ, 'low': GT, 'high': LT})     # common prefix, marker does not fit
+                if not rc.must_pass(copies, start=head, stops=(head,)):
+                    errs.append('on the common prefix (equal position and marker) an iteration can continue without copying the node')
+                elif any(b in rc.reachable for b in clears):
+                    errs.append('the low path is dropped although both paths still agree (equal position and marker): the result may '
+                                'not exceed the low bound')
+            if not errs:
+                for o in (LT, GT):  # same position, different markers, marker does not fit: descend along high, forget low
+                    rc = reach({'req': EQ, 'meq': o, 'low': GT, 'high': LT})
+                    if not rc.must_pass(copies, start=head, stops=(head,)):
+                        errs.append('at a pair of siblings (equal position, different markers) an iteration can continue without copying the high node')
+                        break
+                    if not clears or not rc.must_pass(clears, start=head, stops=(head,)):
+                        errs.append('after the paths diverge (equal position, different markers) the low path keeps being compared: '
+                                    'its deeper nodes are unrelated to the high path')
+                        break
+        ctx.check(not errs, 'walk', body, 'equal position: copy the high node, keep the low path only while the markers agree; '
+                  'different positions: fork', errs[0] if errs else '', line=block_line(it, copies[0]), props=['C14'])
     # (b) one-bound position from the first node
     one = []
     for bb, c in it.calls.items():
